@@ -1,10 +1,11 @@
 (* Message-level round trip: whatever `encrypt_with` produces, `decrypt` with the same key and usage returns
    the plaintext — for the AES profiles (RFC 3962 / 8009, ciphertext stealing), DES3 (RFC 3961) and RC4
-   (RFC 4757). The block ciphers enter through their inverse property (hypotheses of the Section). *)
+   (RFC 4757). No hypothesis on the ciphers: AES and triple-DES decryption are proved to invert encryption
+   (prim/AESInverse.v, prim/DESInverse.v); the premises only say that keys and data are byte strings. *)
 From Gokrb5.lib Require Import Bytes JV.
-From Gokrb5.prim Require CBC HMAC RC4 AES DES.
+From Gokrb5.prim Require CBC HMAC RC4 AES DES AESInverse DESInverse.
 From Gokrb5.model Require Import Crypto.
-From Gokrb5.proofs Require Import CryptoBasic CTSProofs.
+From Gokrb5.proofs Require Import CryptoBasic CBCGuarded CTSProofs CryptoWf.
 Import CBC.
 
 Lemma last_two_some (bl r : list bytes) p l : last_two bl = Some (r, p, l) -> bl = r ++ [p; l].
@@ -85,16 +86,15 @@ Proof.
 Qed.
 
 Section AES.
-  Hypothesis aes_inv : forall ke b, length b = 16%nat -> aes_ecb_dec ke (aes_ecb ke b) = b.
-
   Lemma aes_ecb_length ke b : length b = 16%nat -> length (aes_ecb ke b) = 16%nat.
   Proof. unfold aes_ecb. apply AES.aes_encrypt_rk_length. Qed.
 
   Theorem aes_sha1_roundtrip et key usage conf msg ct :
     et_family et = Some FAesSha1 -> length conf = 16%nat ->
+    wf_bytes key -> wf_bytes conf -> wf_bytes msg ->
     encrypt_with et key usage conf msg = Ok ct -> decrypt et key usage ct = Ok msg.
   Proof.
-    intros Hf Hc. unfold encrypt_with, decrypt. rewrite Hf.
+    intros Hf Hc Wk Wc Wm. unfold encrypt_with, decrypt. rewrite Hf.
     destruct (negb (length key =? key_len et)%nat); [discriminate|].
     destruct (derive_key et key (usage_const usage 170)) as [ke| |] eqn:Ek; cbn [bind]; try discriminate.
     destruct (integrity_hash et key usage (conf ++ msg)) as [ih| |] eqn:Ei; cbn [bind]; try discriminate.
@@ -108,20 +108,21 @@ Section AES.
     destruct (Nat.ltb_spec (length (conf ++ msg) + mac_len et) (16 + mac_len et)); [lia|].
     replace (length (conf ++ msg) + mac_len et - mac_len et)%nat with (length (cts_encrypt (aes_ecb ke) (conf ++ msg))) by lia.
     rewrite firstn_app_exact, skipn_app_exact.
-    rewrite (cts_roundtrip (aes_ecb ke) (aes_ecb_dec ke) (aes_inv ke) (aes_ecb_length ke)) by exact Lpt.
+    assert (Wke : wf_bytes ke) by exact (derive_key_aes_wf et key _ ke (or_introl Hf) Wk (usage_const_nonempty _ _) Ek).
+    rewrite (cts_roundtrip (aes_ecb ke) (aes_ecb_dec ke) (aes_ecb_inverse ke Wke) (aes_ecb_length ke) (aes_ecb_wf ke Wke));
+      [|exact Lpt|apply wf_bytes_app; auto].
     cbn [bind]. rewrite Ei. cbn [bind]. rewrite beq_bytes_refl.
     rewrite <- Hc. rewrite skipn_app_exact. reflexivity.
   Qed.
 End AES.
 
 Section AES2.
-  Hypothesis aes_inv : forall ke b, length b = 16%nat -> aes_ecb_dec ke (aes_ecb ke b) = b.
-
   Theorem aes_sha2_roundtrip et key usage conf msg ct :
     et_family et = Some FAesSha2 -> length conf = 16%nat ->
+    wf_bytes key -> wf_bytes conf -> wf_bytes msg ->
     encrypt_with et key usage conf msg = Ok ct -> decrypt et key usage ct = Ok msg.
   Proof.
-    intros Hf Hc. unfold encrypt_with, decrypt. rewrite Hf.
+    intros Hf Hc Wk Wc Wm. unfold encrypt_with, decrypt. rewrite Hf.
     destruct (negb (length key =? key_len et)%nat); [discriminate|].
     destruct (derive_key et key (usage_const usage 170)) as [ke| |] eqn:Ek; cbn [bind]; try discriminate.
     set (c := cts_encrypt (aes_ecb ke) (conf ++ msg)).
@@ -136,7 +137,9 @@ Section AES2.
     destruct (Nat.ltb_spec (length (conf ++ msg) + mac_len et) (16 + mac_len et)); [lia|].
     replace (length (conf ++ msg) + mac_len et - mac_len et)%nat with (length c) by lia.
     rewrite firstn_app_exact, skipn_app_exact. unfold c at 1.
-    rewrite (cts_roundtrip (aes_ecb ke) (aes_ecb_dec ke) (aes_inv ke) (aes_ecb_length ke)) by exact Lpt.
+    assert (Wke : wf_bytes ke) by exact (derive_key_aes_wf et key _ ke (or_intror Hf) Wk (usage_const_nonempty _ _) Ek).
+    rewrite (cts_roundtrip (aes_ecb ke) (aes_ecb_dec ke) (aes_ecb_inverse ke Wke) (aes_ecb_length ke) (aes_ecb_wf ke Wke));
+      [|exact Lpt|apply wf_bytes_app; auto].
     cbn [bind]. rewrite Ei. cbn [bind]. rewrite beq_bytes_refl.
     rewrite <- Hc. rewrite skipn_app_exact. reflexivity.
   Qed.
@@ -154,17 +157,21 @@ Proof.
 Qed.
 
 Section DES3.
-  Hypothesis des3_inv : forall ke b, length b = 8%nat -> des3_ecb_dec ke (des3_ecb ke b) = b.
+  Lemma des3_inv ke b : length b = 8%nat -> wf_bytes b -> des3_ecb_dec ke (des3_ecb ke b) = b.
+  Proof. intros. unfold des3_ecb, des3_ecb_dec. now apply DESInverse.tdes_decrypt_encrypt_ks. Qed.
+
+  Lemma des3_ecb_wf ke b : length b = 8%nat -> wf_bytes b -> wf_bytes (des3_ecb ke b).
+  Proof. intros _ _. unfold des3_ecb. apply DES.tdes_encrypt_ks_wf. Qed.
 
   Lemma des3_ecb_length ke b : length b = 8%nat -> length (des3_ecb ke b) = 8%nat.
   Proof. intros _. unfold des3_ecb. apply DES.tdes_encrypt_ks_length. Qed.
 
   Theorem des3_roundtrip key usage conf msg ct :
-    length conf = 8%nat ->
+    length conf = 8%nat -> wf_bytes conf -> wf_bytes msg ->
     encrypt_with 16 key usage conf msg = Ok ct ->
     decrypt 16 key usage ct = Ok (msg ++ zeros ((8 - length (conf ++ msg) mod 8) mod 8)).
   Proof.
-    intros Hc. unfold encrypt_with, decrypt. change (et_family 16) with (Some FDes3). cbv iota.
+    intros Hc Wc Wm. unfold encrypt_with, decrypt. change (et_family 16) with (Some FDes3). cbv iota.
     destruct (derive_key 16 key (usage_const usage 170)) as [ke| |] eqn:Ek; cbn [bind]; try discriminate.
     set (pt := zpad 8 (conf ++ msg)).
     destruct (integrity_hash 16 key usage pt) as [ih| |] eqn:Ei; cbn [bind]; try discriminate.
@@ -182,8 +189,8 @@ Section DES3.
     replace (length pt + mac_len 16 - mac_len 16)%nat with (length c) by lia.
     rewrite Lc at 1. rewrite Hk at 1. rewrite Nat.mod_mul by lia. cbn [Nat.eqb negb].
     rewrite firstn_app_exact, skipn_app_exact. unfold c.
-    rewrite (cbc_decrypt_encrypt (des3_ecb ke) (des3_ecb_dec ke) 8 (des3_inv ke) (des3_ecb_length ke) (zeros 8) pt k);
-      [|lia|apply zeros_length|exact Hk].
+    rewrite (cbc_decrypt_encrypt_g (des3_ecb ke) (des3_ecb_dec ke) 8 (des3_inv ke) (des3_ecb_length ke) (des3_ecb_wf ke) (zeros 8) pt k);
+      [|lia|apply zeros_length|apply zeros_wf|exact Hk|unfold pt, zpad; repeat (apply wf_bytes_app; split); auto using zeros_wf].
     rewrite Ei. cbn [bind]. rewrite beq_bytes_refl.
     unfold pt, zpad. rewrite <- app_assoc, <- Hc, skipn_app_exact. reflexivity.
   Qed.
